@@ -21,8 +21,8 @@ def run(c):
     obl_context.obl_context(c, thorough=not q, budget_s=600)
     A.validate_assembly_concrete(c)     # a mismatch makes the run inconclusive; the obligations still run, and what they find is reported only after native confirmation
     ct = A.conv_table_for([])
-    A.obl_empty_strings(c, ct, budget_s=900)
-    A.obl_assembly_no_panic(c, ct, thorough=not q, budget_s=900)
+    A.obl_empty_strings(c, ct, budget_s=900 if q else 3600)
+    A.obl_assembly_no_panic(c, ct, thorough=not q, budget_s=900 if q else 5400)
     A.obl_regex_hygiene(c, 2 if q else 3, budget_s=600)
     c.assume("panic-freedom is decided per event from an arbitrary pre-state satisfying the stated invariants (one inductive step covers "
              "histories of any length); candidate assembly runs with the data sources as oracles")
